@@ -168,7 +168,8 @@ def _sig(tree):
   import numpy as np
   flat, td = jax.tree_util.tree_flatten_with_path(tree)
   return td, tuple((jax.tree_util.keystr(p), tuple(np.shape(l)),
-                    str(l.dtype) if hasattr(l, 'dtype') else str(np.asarray(l).dtype))
+                    str(l.dtype) if hasattr(l, 'dtype') else str(np.asarray(l).dtype),
+                    bool(getattr(getattr(l, 'aval', None), 'weak_type', False)))
                    for p, l in flat)
 
 
@@ -241,7 +242,11 @@ def run(plan):
       tmpl = w2.init(params)
       st2 = w2.from_bytes(tmpl, blobs[-1])
       s_t, s_r = _sig(tmpl), _sig(st2)
-      ok = s_t[0] == s_r[0] and s_t[1] == s_r[1]
+      weak = [x[0] for x in s_t[1] if x[3]]
+      if weak:
+        ctx.violate('restore_layout', mk, 'weakly_typed_state_leaf_cannot_be_'
+                    'restored_as_such', leaves=weak[:3])
+      ok = s_t[0] == s_r[0] and [x[:3] for x in s_t[1]] == [x[:3] for x in s_r[1]]
       ctx.probe('restore_checked')
       ctx.ev('restore_layout', 'ok' if ok else 'violation')
       if not ok:
